@@ -236,6 +236,11 @@ class Gen13(Gen):
         lit = ch.choice(['0', '0', '0.0', '-0.0', '1', '1.5', '-2', '100'])
         k = ch.int(0, 11)
         self.features.add('class-cond')
+        if k <= 6 and ch.bool(0.3):
+            # the test is applied to a ROUNDED expression of the variable: under a narrow context its class
+            # is not the variable's (abs(1e10) is inf under FP16, -1e-10 is -0 under a fixed-point context)
+            v = ch.choice([f'abs({v})', f'(-{v})', f'({v} + 0)', f'fp.round({v})', f'({v} * 1)', f'abs(-{v})'])
+            self.features.add('class-cond-rounded')
         if k == 0:
             return f'fp.isnan({v})'
         if k == 1:
@@ -919,12 +924,15 @@ def gen_module(ch: Chooser, i: int) -> Module:
 # ---------------------------------------------------------------------------
 # inputs
 
-R_POOL = progen.R_POOL + [0, -0.0, float('inf'), float('-inf'), float('nan'), 0.0, 1, -1, 2]
+R_POOL = progen.R_POOL + [0, -0.0, float('inf'), float('-inf'), float('nan'), 0.0, 1, -1, 2, 1e-10, -1e10, 1e300]
 
 
 def gen_value(ch: Chooser, t, minlen=0, minrow=0):
     if t == 'R':
         return ch.choice(R_POOL)
+    if t == 'X':                      # far outside / far below the range of a narrow context
+        return ch.choice([1e10, -1e10, 1e-10, -1e-10, 1e300, -1e-300, 65520.0, 1e5, 3e-8, 0.0, -0.0, 1.0, -2.5,
+                          float('inf'), float('-inf'), float('nan')])
     if t == 'I':                      # a small index
         return ch.int(0, 3)
     if t == 'J':                      # an upper index, never below an 'I'
@@ -1003,6 +1011,26 @@ def main(a0: fp.Real, a1: fp.Real) -> fp.Real:
     t = (a0 if {cond} else 1) * 0
     return u + v + w + t
 ''', [('main', [('a0', 'R'), ('a1', 'R')], {}, {})]),
+    ('class-test-on-rounded-expression', '''
+@fp.fpy
+def main(a0: fp.Real, a1: fp.Real) -> fp.Real:
+    r = 0
+    with {nctx}:
+        if {rtest}:
+            u = a0
+            r = 1
+        else:
+            u = a0
+            r = 2
+        t = (a0 if {rtest} else a1)
+    w = a0
+    k = {trips}
+    with {nctx}:
+        while {rtest} and k > 0:
+            w = a0
+            k = k - 1
+    return r
+''', [('main', [('a0', 'X'), ('a1', 'X')], {}, {})]),
     ('class-branch-join', '''
 @fp.fpy(ctx=fp.REAL)
 def main(a0: fp.Real, a1: fp.Real) -> fp.Real:
@@ -1303,6 +1331,12 @@ FILL = {
                 'zs = [x + y for e in a0 for x, y in zip(a0, a1)]',
                 'zs = [x + y for x, y in zip(a0, a1)] if a2 > 0 else a0',
                 'zs = [x + y for i in range({trips}) for x, y in zip(a0, a1)]'],
+    'nctx': ['fp.FP16', 'fp.IEEEContext(3, 6, fp.RM.RNE)', 'fp.IEEEContext(4, 8, fp.RM.RTZ)', 'fp.MPFixedContext(-2, fp.RM.RNE)',
+             'fp.FixedContext(True, -1, 6, fp.RM.RNE, fp.OV.SATURATE)', 'fp.MPSFloatContext(4, -3, fp.RM.RNE)',
+             'fp.MPFloatContext(3, fp.RM.RNE)', 'fp.FP32'],
+    'rtest': ['fp.isinf({rx})', 'fp.isnan({rx})', 'fp.isfinite({rx})', 'not fp.isfinite({rx})', '{rx} == 0', '0 == {rx}',
+              '{rx} != 0', 'not ({rx} != 0)', '{rx} > 0', '{rx} <= 0', 'not fp.isinf({rx})', '{rx} == 0.0 or fp.isinf({rx})'],
+    'rx': ['abs(a0)', '(-a0)', '(a0 + 0)', 'fp.round(a0)', '(a0 * 1)', 'abs(-a0)', '(-abs(a0))', 'a0'],
     'alo': ['i', 'i + 1', '1 + i', 'i', '0'],
     'ahi': ['{an} - i', 'i + 3', 'len(xs) - i', '{an} - i - 1', '{an} - 1 - i', '3 + i'],
     'rlo': ['i', 'i + 1', '{an} - i', 'i - 1'],
